@@ -8,6 +8,8 @@ THEOREMS = {
         "Dawgs.C01.Props.tr2_some", "Dawgs.C01.Props.tr_sound_S2", "Dawgs.C01.Props.tr_sound_S2b", "Dawgs.C01.Props.tr2_cypher_defined",
         "Dawgs.C01.Props.tr2_no_runtime_error", "Dawgs.C01.Props.c01_partial_S2",
         "Dawgs.C01.Props.ofCy2_sound", "Dawgs.C01.Props.graphOK2_of_check", "Dawgs.C01.Props.exG2_ok",
+        "Dawgs.C01.Props.tr3_some", "Dawgs.C01.Props.tr_sound_S2c", "Dawgs.C01.Props.c01_partial_S3", "Dawgs.C01.Props.ofCyChain_sound",
+        "Dawgs.C01.Props.tr4_some", "Dawgs.C01.Props.tr_sound_S1c", "Dawgs.C01.Props.c01_partial_S4", "Dawgs.C01.Props.ofCyCount1_sound",
     ],
 }
 
@@ -65,6 +67,14 @@ def judge(op, impl, model):
             feats = cyshape.features(json.loads(mq.group(1))) if mq else set()
             shape = ("chain-through-node-carried-by-with" if {"with", "pattern-uses-earlier-binding", "rel-pattern"} <= feats else "unrecognised-query-shape")
             return "reject multiplicity-only-difference:%s %s" % (shape, " ".join(w[2:])[:1500].replace(" ", "_"))
+        if names[0] == "path-in-reverse-order":
+            # a symptom, not a switch of the reference semantics: keyed by the enabling shape of the query, so that the same symptom on
+            # another shape is not covered by the registered finding
+            import cyshape
+            mq = re.match(r'q ("(?:[^"\\]|\\.)*")', op)
+            feats = cyshape.features(json.loads(mq.group(1))) if mq else set()
+            shape = ("path-variable-renamed-in-with" if "path-variable-renamed-in-with" in feats else "unrecognised-query-shape")
+            return "reject path-in-reverse-order:%s %s" % (shape, " ".join(w[2:])[:1500].replace(" ", "_"))
         return "reject deviation:%s %s" % (names[0], " ".join(w[2:])[:1500].replace(" ", "_"))
     if w[0] == "sql-runtime-error":
         m = re.search(r"usql=\d+ (\S+) graph=", v)
@@ -165,12 +175,19 @@ FRAGMENT_PROVED = ("stage S1 (all graphs with unique node ids / injective kind m
                    "MATCH (n[:K...]) [WHERE p] RETURN items [ORDER BY id(n) [ASC|DESC] [SKIP k] [LIMIT k]]; "
                    "p ::= n.k = 'str' | n.k = int | n.k <> int | n.k IS [NOT] NULL | id(n) (= <> < <= > >=) int | n:K1:K2 | p AND p | p OR p | NOT p | (p); "
                    "items ::= n | n.k | id(n) [AS a]. "
+                   "stage S1c (same graphs as S1; BOTH statement shapes): MATCH (n[:K...]) [WHERE p] RETURN count(n) [AS c] with p as in S1 — the count-store fast path "
+                   "`select count(*)::int8 [as c] from node n0 [where kinds]` (emitted when the MATCH has no user predicate and the optimiser is on) and the node frame + "
+                   "`select count(s0.n0)::int8 [as c] from s0` both return the one row the reference semantics returns, the number of matching nodes. "
                    "stage S2b (all graphs that additionally have unique relationship ids, only relationship kinds known to the kind map and no relationship property stored as JSON "
                    "null; all queries; BOTH join orders of the emitted statement): "
                    "MATCH (a[:K...])-[r[:T1|T2...]]->(b[:K...]) [WHERE c1 AND ... AND cn] RETURN items, one directed fixed hop, no ORDER BY / SKIP / LIMIT / DISTINCT, a, r, b pairwise "
                    "distinct names and each of them read by some item; every conjunct ci is a predicate p of the S1 language over exactly ONE of a, r, b (for r a kind atom r:T means "
                    "type(r) = T); conjuncts that read two variables (a.x = b.y, a.x = 1 OR b.y = 2) are outside; items ::= x | id(x) | x.k [AS alias] for x in {a, r, b}; "
-                   "the rows agree as a BAG (List.Perm), not as a list")
+                   "the rows agree as a BAG (List.Perm), not as a list. "
+                   "stage S2c (same graphs; both join orders of the first hop): chains of TWO or THREE directed fixed hops "
+                   "MATCH (n0[:K...])-[e0[:T|...]]->(n1[:K...])-[e1[:T|...]]->(n2[:K...]) [-[e2[:T|...]]->(n3[:K...])] RETURN items, no WHERE / ORDER BY / SKIP / LIMIT / DISTINCT, "
+                   "all variable names distinct, every variable read by some item, items ::= x | id(x) | x.k [AS alias]; bag agreement. openCypher's relationship uniqueness within the "
+                   "MATCH is part of the reference semantics; the emitted `e_i.id != (s.e_j).id` guards are proved to match it exactly for these shapes")
 FRAGMENT_SEARCHED = ("every query of the corpora / generator the REAL translator translates and both Lean evaluators model: relationships (directed, undirected, "
                      "chains, multi-pattern, multi-MATCH), WITH pipelines, UNWIND, aggregation (count/collect/sum/min/max/avg), DISTINCT, ORDER BY on properties, "
                      "variable-length expansion, paths, OPTIONAL MATCH, quantifiers, pattern predicates, string / list / arithmetic operators; per-construct unmodelled counts are in this record")
@@ -182,9 +199,9 @@ SPEC = {
     "fallback_level": "other",
     "lean_modules": ["Dawgs.Props.C01"],
     "theorems_by_module": THEOREMS,
-    "gate_modules": ["Dawgs.Model.Graph", "Dawgs.Model.Cypher", "Dawgs.Model.CyEval", "Dawgs.Model.SqlVal", "Dawgs.Model.SqlEval", "Dawgs.Model.C01", "Dawgs.Model.C01S2",
+    "gate_modules": ["Dawgs.Model.Graph", "Dawgs.Model.Cypher", "Dawgs.Model.CyEval", "Dawgs.Model.SqlVal", "Dawgs.Model.SqlEval", "Dawgs.Model.C01", "Dawgs.Model.C01S2", "Dawgs.Model.C01Chain", "Dawgs.Model.C01Count", "Dawgs.Model.C02",
                      "Dawgs.Proofs.C01", "Dawgs.Proofs.C01Sql", "Dawgs.Proofs.C01Pred", "Dawgs.Proofs.C01Query", "Dawgs.Proofs.C01Cy", "Dawgs.Proofs.C01Sound",
-                     "Dawgs.Proofs.C01Frag", "Dawgs.Proofs.C01At", "Dawgs.Proofs.C01S2Sql", "Dawgs.Proofs.C01S2Cy", "Dawgs.Proofs.C01S2Sound", "Dawgs.Props.C01"],
+                     "Dawgs.Proofs.C01Frag", "Dawgs.Proofs.C01At", "Dawgs.Proofs.C01S2Sql", "Dawgs.Proofs.C01S2Cy", "Dawgs.Proofs.C01S2Sound", "Dawgs.Proofs.C01ChainSql", "Dawgs.Proofs.C01ChainCy", "Dawgs.Proofs.C01ChainSound", "Dawgs.Proofs.C02", "Dawgs.Proofs.C01Count", "Dawgs.Props.C01"],
     "suites": [{"name": "c01tie", "model_suite": "c01tie", "model_input": model_input, "impl_view": impl_view, "model_view": model_view,
                 "judge": tie_judge, "keep_prefix": 1, "thorough_seeds": 1},
                {"name": "c01", "model_suite": "c01sem", "model_input": model_input, "impl_view": impl_view, "model_view": model_view,
@@ -194,13 +211,16 @@ SPEC = {
     "extra_coverage": extra_coverage,
     "panic_is_violation": False,
     "rule": "tie 1 (suite c01tie): structured random queries of the PROVED fragment S1 (kinds x predicates x items x order/skip/limit) and S2b (kinds of a / r / b x 0-4 WHERE conjuncts, "
-            "each an S1 predicate of depth <= 2 over one of a, r, b x items over a, r, b; splitmix64(VERIF_SEED)) are translated by the REAL "
+            "each an S1 predicate of depth <= 2 over one of a, r, b x items over a, r, b) S2c (chains of 2-3 hops x kinds x items over all variables) and S1c (count(n) over a node pattern x kinds x optional predicate x alias; splitmix64(VERIF_SEED)) are translated by the REAL "
             "translator; the reflection S-expression of Result.Statement must be EQUAL to the model translator's statement (and carry no parameters) — for a hop the model has TWO "
             "statements, one per join order (`S2.Query.trWith km false / true`): which one the translator picks is a selectivity heuristic over its Go syntax tree that scores only "
             "pointer-typed nodes, which the reflection rendering does not determine, so the direction is NOT modelled; the theorems hold for both and the tie accepts either (the "
             "record counts how often the model's own approximation `flipOpt` names the order taken) — and on every generated graph satisfying "
-            "the stage's hypothesis (GraphOK for S1, GraphOK2 for S2b) the two evaluators must agree. tie 2 (suite c01, SEARCH not proof): FOCUSED FAMILIES (harness/focused.go: variable-length step + >= 2 fixed hops with every subset of the suffix nodes already bound, "
-            "aggregate-only RETURN incl. collect / size(collect()) with LIMIT and no ORDER BY — one output row, so the LIMIT is deterministic —, aggregate traversal counts, collect membership) "
+            "the stage's hypothesis (GraphOK for S1 / S1c, GraphOK2 for S2b / S2c) the two evaluators must agree. tie 2 (suite c01, SEARCH not proof): FOCUSED FAMILIES (harness/focused.go: variable-length step + >= 2 fixed hops with every subset of the suffix nodes already bound, "
+            "aggregate-only RETURN incl. collect / size(collect()) with LIMIT and no ORDER BY — one output row, so the LIMIT is deterministic —, aggregate traversal counts, collect membership; a NAMED PATH bound by a MATCH whose own WHERE holds a pattern predicate, over patterns the optimiser reverses, the path / "
+            "nodes(p) / relationships(p) / length(p) observed directly and through WITH (path VALUES are compared as ordered node and relationship lists; a result that is the Cypher "
+            "result with every path reversed is the symptom class `path-in-reverse-order`, keyed by the enabling query shape); string predicates and equalities whose literal contains "
+            "backslash, %, _ or a quote, on a graph whose names contain these characters next to look-alikes (Sql.eval's LIKE has PostgreSQL's escape semantics, Cy.eval compares raw strings)) "
             "+ every Cypher text of the repository corpora the translator accepts + structured "
             "random queries (levels 1-5) are translated by the REAL translator; the emitted statement is evaluated by Sql.eval on encode(g) and the source query by Cy.eval on g, for the "
             "fixed graph family, seeded random graphs and (sampled cases) all graphs up to N nodes / E edges with self loops, parallel edges, multi-kind nodes, missing properties; "
@@ -223,13 +243,13 @@ SPEC = {
     "assumptions": ["GraphOK (theorems): node ids unique, kind map injective, no property stored as JSON null; decidable (graphOKb), evaluated on every generated graph, "
                     "graphs outside it are still evaluated and counted",
                     "GraphOK2 (stage S2b theorems): GraphOK + relationship ids unique + every relationship kind present in the kind map + no relationship property stored as JSON null; decidable (graphOK2b), evaluated on every generated graph",
-                    "proof only on stages S1 and S2b; every other construct is search on small graphs (bounded evaluation, NOT proof)"],
+                    "proof only on stages S1, S1c, S2b and S2c; every other construct is search on small graphs (bounded evaluation, NOT proof)"],
 }
 
 MANIFEST = {
     "category": "translation_validation",
-    "technique": "Lean semantics for both languages (Cy.eval, Sql.eval); model translator tr2F proved sound on stages S1 and S2b (one directed hop with WHERE) for all graphs, all queries and both join orders, tied to the real translator by exact "
-                 "AST equality on generated S1 / S2b queries; outside S1 and S2b: evaluation of the REAL emitted statement against the source query on generated small graphs (search)",
+    "technique": "Lean semantics for both languages (Cy.eval, Sql.eval); model translator tr4F proved sound on stages S1, S1c (count over a node pattern), S2b (one directed hop with WHERE) and S2c (chains of 2-3 directed hops) for all graphs, all queries and both join orders, tied to the real translator by exact "
+                 "AST equality on generated S1 / S1c / S2b / S2c queries; outside them: evaluation of the REAL emitted statement against the source query on generated small graphs (search)",
     "text": "PROVED (Props/C01.lean, axioms propext/Classical.choice/Quot.sound only): tr_sound_S1 — for every graph with unique node ids, injective kind map and no stored JSON null, "
             "every parsed query q and statement (st, ps) with tr km q = some (st, ps): if Sql.eval (encode km g) st ps yields a table then Cy.eval g q yields a result and both show the "
             "client the same rows in the same order; tr_no_runtime_error — that evaluation never ends in an SQL run-time / type / name error (only the model's own `unmodelled` for `->>` of "
@@ -241,11 +261,17 @@ MANIFEST = {
             "S2.Query.trWith km false / true; tr2_cypher_defined; tr2_no_runtime_error (only the model's `unmodelled` for `->>` of array/object properties); "
             "c01_partial_S2 : forall flipOf, C01_bag_for (tr2F flipOf); tr2_some (tr2F answers only inside S1 or S2b); ofCy2_sound; graphOK2_of_check. The WHERE conjuncts over a / b are "
             "emitted inside the join conditions, those over r in the frame's WHERE; the predicate lemmas are entity-generic (Proofs/C01At.lean: sql_predAt / cy_predAt over a node or a "
-            "relationship under any table alias / variable). FRAGMENT PROVED = " + FRAGMENT_PROVED + ". NOT PROVED: C01_full (the statement for a total "
-            "translator) stays a visible Prop; the design's S1 remainder (DISTINCT, ORDER BY on properties, ordered and string-function property comparisons), the rest of S2 (undirected hops, chains of hops with "
-            "the relationship-inequality guard, WHERE conjuncts that read two variables, ORDER BY over a hop) and S3..S5 are SEARCHED only. "
+            "relationship under any table alias / variable). Stage S2c (chains): tr_sound_S2c / c01_partial_S3 : forall flipOf flipCh, C01_bag_for (tr3F flipOf flipCh) — the statement with "
+            "frames s0 (the hop frame), s1 [, s2] (each `from s_(i-1) join edge e_i on (s_(i-1).n_i).id = e_i.start_id join node n_(i+1) on ... where [kinds and] e_i.id != (s_(i-1).e_j).id`) "
+            "returns a permutation of the Cypher rows. Cypher side proved for chains of ANY length (Proofs/C01ChainCy.lean matchSteps_chain: the reference matcher enumerates exactly the "
+            "extensions by a relationship not used yet), SQL side frame by frame for 2 and 3 hops (Proofs/C01ChainSql.lean frame1 / frame2, C01ChainSound.lean chain_sound); tr3_some; ofCyChain_sound. Stage S1c (count): tr_sound_S1c / count_sound — for every GraphOK graph, every query MATCH (n[:K...]) [WHERE p] RETURN count(n) [AS c] "
+            "and both statement shapes (fast path on / off) the SQL row equals the Cypher row (Proofs/C01Count.lean: evalSelect_countA, fastStmt_eval, frameStmt_eval, cy_side_count — "
+            "implicit grouping with no key is one group, count(n) counts the non-null bindings); c01_partial_S4 : forall flipOf flipCh fast, C01_bag_for (tr4F flipOf flipCh fast); "
+            "tr4_some; ofCyCount1_sound. FRAGMENT PROVED = " + FRAGMENT_PROVED + ". NOT PROVED: C01_full (the statement for a total "
+            "translator) stays a visible Prop; the design's S1 remainder (DISTINCT, ORDER BY on properties, ordered and string-function property comparisons), the rest of S2 (undirected hops, chains with WHERE or of more than three hops, "
+            "WHERE conjuncts that read two variables, ORDER BY over a hop) and S3..S5 are SEARCHED only. "
             "FRAGMENT SEARCHED = " + FRAGMENT_SEARCHED + ". Confirmed deviations of the unchanged translator from openCypher (OPTIONAL MATCH as first clause, jsonb ordering under ORDER BY, "
             "self loops under undirected patterns, missing relationship uniqueness across pattern parts, text-form comparisons, SQL run-time cast errors, ...) are findings in "
             "known_findings.json, each with a replay in corpus/C01.",
-    "note": "No PostgreSQL server: SQL meaning is a trusted Lean transcription of the documentation. Bounded evaluation on small graphs is search, not proof; the proof covers stages S1 and S2b only.",
+    "note": "No PostgreSQL server: SQL meaning is a trusted Lean transcription of the documentation. Bounded evaluation on small graphs is search, not proof; the proof covers stages S1, S1c, S2b and S2c only.",
 }
